@@ -11,6 +11,7 @@ package harness
 // 4x the time base and reported only if it fails at all three scales.
 
 import (
+	"context"
 	"encoding/json"
 	"errors"
 	"fmt"
@@ -255,6 +256,46 @@ func runC17(c c17Case) *Violation {
 			return violf("call-after-idle-failed", "a call after %v of one-way traffic failed: %v", dur, err)
 		}
 		return healthy()
+	case "notification_storm":
+		// the main loop is kept busy sending for longer than the timeout, with nothing but keepalives coming back
+		d := dur
+		if d < T+T/2 {
+			d = T + T/2
+		}
+		end := time.Now().Add(d)
+		var wg sync.WaitGroup
+		var mu sync.Mutex
+		var first *Violation
+		for g := 0; g < 4; g++ {
+			wg.Add(1)
+			go func(g int) {
+				defer wg.Done()
+				tok := rig.Tok(fmt.Sprintf("storm%d", g))
+				for n := 0; time.Now().Before(end); n++ {
+					ctx, cancel := context.WithTimeout(context.Background(), 3*time.Second)
+					err := cl.C.Notify(ctx, tok, Plan{})
+					cancel()
+					if err != nil {
+						mu.Lock()
+						if first == nil {
+							first = violf("notify-failed", "notification %d of sender %d in a storm of back-to-back notifications failed on a healthy link (timeout %v, ping %v, server ping %v): %v", n, g, T, ping, sp, err)
+						}
+						mu.Unlock()
+						return
+					}
+				}
+			}(g)
+		}
+		if !bounded(d+8*time.Second, wg.Wait) {
+			return violf("notify-hangs", "a storm of notifications did not finish on a healthy link")
+		}
+		if first != nil {
+			return first
+		}
+		if err := rig.Probe(cl, 3*time.Second+T); err != nil {
+			return violf("call-after-idle-failed", "a call after %v of back-to-back notifications failed: %v", d, err)
+		}
+		return healthy()
 	case "blackhole_fresh_steady":
 		// the peer falls silent right after the connection was established (nothing received on it yet) while the
 		// application keeps issuing calls more often than the timeout
@@ -376,12 +417,12 @@ func c17NT(c c17Case) (bool, []string) {
 	return c.Factor > 1 || strings.HasPrefix(c.Scenario, "blackhole"), cl
 }
 
-const c17Rule = "client timeout 600-1500 ms with ping = timeout/4..timeout/8, server ping off or timeout/8..timeout/2.2; scenarios: one call lasting 0.1-3 x timeout, a call plus a paced stream, idleness of 0.5-3 x timeout followed by a call, a paced stream lasting 1.5-3 x timeout, blackhole with three calls pending, blackhole while idle followed by a call, steady notifications, a long call right after a redial, silence of 2-5 x timeout with redials refused followed by a healed path (client with a reverse handler), a 16 MiB request or response whose path pauses for three ping intervals of its writer (< timeout/2) in the middle of the transfer. Scenarios of the fixed grid run concurrently (each on its own server, proxy and client). Non-trivial = duration above the timeout, or a blackhole; distinct by descriptor hash"
+const c17Rule = "client timeout 600-1500 ms with ping = timeout/4..timeout/8, server ping off or timeout/8..timeout/2.2; scenarios: one call lasting 0.1-3 x timeout, a call plus a paced stream, idleness of 0.5-3 x timeout followed by a call, a paced stream lasting 1.5-3 x timeout, blackhole with three calls pending, blackhole while idle followed by a call, steady notifications, four senders of back-to-back notifications for at least 1.5 x timeout, a long call right after a redial, silence of 2-5 x timeout with redials refused followed by a healed path (client with a reverse handler), a 16 MiB request or response whose path pauses for three ping intervals of its writer (< timeout/2) in the middle of the transfer. Scenarios of the fixed grid run concurrently (each on its own server, proxy and client). Non-trivial = duration above the timeout, or a blackhole; distinct by descriptor hash"
 
 func TestC17(t *testing.T) {
 	rec := NewRec("C17", c17Rule)
 	defer rec.Finish(t)
-	rec.RequireClass("scenario_long_blackhole_then_heal", "scenario_slow_reader_big_transfer", "scenario_long_call_after_redial", "scenario_steady_notifications", "scenario_blackhole_fresh_steady", "scenario_long_call", "scenario_idle_then_call", "scenario_stream", "scenario_mixed", "scenario_blackhole_pending", "scenario_blackhole_idle", "server_ping_off", "server_ping_on", "longer_than_timeout")
+	rec.RequireClass("scenario_notification_storm", "scenario_long_blackhole_then_heal", "scenario_slow_reader_big_transfer", "scenario_long_call_after_redial", "scenario_steady_notifications", "scenario_blackhole_fresh_steady", "scenario_long_call", "scenario_idle_then_call", "scenario_stream", "scenario_mixed", "scenario_blackhole_pending", "scenario_blackhole_idle", "server_ping_off", "server_ping_on", "longer_than_timeout")
 	var mu sync.Mutex
 	var firstV *Violation
 	var firstC c17Case
@@ -404,7 +445,7 @@ func TestC17(t *testing.T) {
 		var cases []c17Case
 		k := 0
 		seed := envInt("VERIF_SEED", 1)
-		for _, sc := range []string{"long_call", "mixed", "idle_then_call", "stream", "blackhole_pending", "blackhole_idle", "blackhole_fresh_steady", "long_call_after_redial", "steady_notifications", "long_blackhole_then_heal", "slow_reader_big_transfer"} {
+		for _, sc := range []string{"long_call", "mixed", "idle_then_call", "stream", "blackhole_pending", "blackhole_idle", "blackhole_fresh_steady", "long_call_after_redial", "steady_notifications", "long_blackhole_then_heal", "slow_reader_big_transfer", "notification_storm"} {
 			for _, f := range []float64{0.3, 1.6, 3.0} {
 				for _, spOn := range []bool{false, true} {
 					k++
@@ -443,7 +484,7 @@ func TestC17(t *testing.T) {
 	rec.Rapid(t, "rapid", func(rt *rapid.T) {
 		T := rapid.SampledFrom([]int{600, 800, 1000, 1500}).Draw(rt, "timeout")
 		c := c17Case{TimeoutMs: T, PingDiv: rapid.IntRange(4, 8).Draw(rt, "pingdiv"), ServerPingMs: -1,
-			Scenario: rapid.SampledFrom([]string{"long_call", "mixed", "idle_then_call", "stream", "blackhole_pending", "blackhole_idle", "blackhole_fresh_steady", "long_call_after_redial", "steady_notifications", "long_blackhole_then_heal", "slow_reader_big_transfer"}).Draw(rt, "scenario"),
+			Scenario: rapid.SampledFrom([]string{"long_call", "mixed", "idle_then_call", "stream", "blackhole_pending", "blackhole_idle", "blackhole_fresh_steady", "long_call_after_redial", "steady_notifications", "long_blackhole_then_heal", "slow_reader_big_transfer", "notification_storm"}).Draw(rt, "scenario"),
 			Factor:   float64(rapid.IntRange(1, 30).Draw(rt, "factor10")) / 10}
 		if rapid.Bool().Draw(rt, "serverping") {
 			c.ServerPingMs = int(float64(T) / (2.2 + float64(rapid.IntRange(0, 60).Draw(rt, "spdiv10"))/10))
